@@ -195,6 +195,8 @@ def check_fast_load_bookkeeping(rep, prop='C13'):
             prove('post.tape_running', cmpop('==', st[4], 1))
             prove('post.clock_at_that_edge', cmpop('==', p.reglist.items[25], edge))
             prove('post.next_edge_time_is_that_edge', cmpop('==', st[0], edge))
+            # the clock has been moved (possibly backwards): the time of the next frame interrupt is recomputed from the new clock
+            prove('post.next_interrupt_follows_the_new_clock', cmpop('==', st[8], ((edge + 69888 - 32) // 69888) * 69888))
         for i in range(30):
             if i != 25:
                 prove('frame.registers[%d]' % i, p.reglist.items[i] is p.regs0[i])
